@@ -34,6 +34,9 @@ enum Item {
     FuncDef(u32),
     FuncCall(u32),
     HereDoc(u32, Vec<String>),
+    /// a here-document command followed on the same line by a `read`: the data line comes after
+    /// the delimiter line (the here-document reader must not look past its delimiter)
+    HereDocThenRead(u32, u32, Vec<String>, String),
     Comment,
     Blank,
     Continuation(u32),
@@ -158,6 +161,22 @@ fn render(items: &[Item], with_reads: bool, with_pos: bool, syntax_error_at: Opt
                     vec![body.len().to_string(), format!("{:016x}", fnv(body.as_bytes())), "ok".into()],
                 ));
             }
+            Item::HereDocThenRead(n, m, lines, d) => {
+                if with_reads {
+                    text.push_str(&format!("sink k{n} <<'E_O_F'; read a; probe k{m} \"$a\"\n"));
+                    let mut body = String::new();
+                    for l in lines {
+                        body.push_str(l);
+                        body.push('\n');
+                    }
+                    text.push_str(&body);
+                    text.push_str("E_O_F\n");
+                    text.push_str(d);
+                    text.push('\n');
+                    expect.push((format!("k{n}"), vec![body.len().to_string(), format!("{:016x}", fnv(body.as_bytes())), "ok".into()]));
+                    expect.push((format!("k{m}"), vec![d.clone()]));
+                }
+            }
             Item::Comment => text.push_str("# a comment line with a quote ' and a brace {\n"),
             Item::Blank => text.push_str("\n"),
             Item::Continuation(n) => {
@@ -195,7 +214,8 @@ fn gen_items(rng: &mut Rng) -> Vec<Item> {
     let mut defs: Vec<u32> = Vec::new();
     let mut funcs: Vec<u32> = Vec::new();
     for _ in 0..n {
-        let it = match rng.below(24) {
+        let it = match rng.below(26) {
+            24 | 25 => Item::HereDocThenRead(id(), id(), (0..rng.range(0, 2)).map(|_| data(rng)).collect(), data(rng)),
             0 | 1 => Item::Probe(id()),
             2 => Item::Two(id(), id()),
             3 | 4 => Item::Read(id(), data(rng)),
@@ -257,6 +277,10 @@ fn compare(ctx: &Ctx, what: &str, r: &Rendered, out: &vsh::VOut, _planted: bool,
     let ctxt = || format!("{what}: {detail}\nscript:\n{}\nexpected events: {:?}\nobserved events: {:?}\nstderr:\n{}", r.text, r.expect, got, out.err());
     if out.end != vsh::End::Done {
         ctx.violation(format!("{what}:no-termination"), format!("{:?}\n{}", out.end, ctxt()));
+        return false;
+    }
+    if let Some(e) = out.events.iter().find(|e| e.kind == "stdin-nonblocking") {
+        ctx.violation(format!("{what}:stdin-left-nonblocking"), format!("the command `probe {:?}` found standard input in non-blocking mode\n{}", e.args, ctxt()));
         return false;
     }
     if got != r.expect {
